@@ -158,7 +158,7 @@ func sweepCases() []sweepCase {
 func TestC11Sweep(t *testing.T) {
 	cases := sweepCases()
 	meta := vrun.Meta{Property: "C11", Workload: "TestC11Sweep", Total: len(cases) + 1, Exhaustive: true,
-		Rule: "exhaustive over the message grammar: 29 message types x variant assignments (default + every single deviation: metadata x9, upstream-or-alias x2, data-id-or-alias x2) x {every leaf non-zero & distinct; exactly one leaf non-zero (one case per field path, found by reflection); all zero; minimal (all pointers and collections nil); every extension pointer nil; each pointer field nil; each collection nil/empty/1/3 elements}; collections hold 2 elements otherwise. Each message goes through EncodeTo/DecodeFrom of both codecs. All cases are distinct (type|assignment|shape|field); non-trivial = both codecs produced bytes, decoded them, and at least one leaf was compared. The last case compares the harness's type list with the isMessage types declared in package message.",
+		Rule:        "exhaustive over the message grammar: 29 message types x variant assignments (default + every single deviation: metadata x9, upstream-or-alias x2, data-id-or-alias x2) x {every leaf non-zero & distinct; exactly one leaf non-zero (one case per field path, found by reflection); all zero; minimal (all pointers and collections nil); every extension pointer nil; each pointer field nil; each collection nil/empty/1/3 elements}; collections hold 2 elements otherwise. Each message goes through EncodeTo/DecodeFrom of both codecs. All cases are distinct (type|assignment|shape|field); non-trivial = both codecs produced bytes, decoded them, and at least one leaf was compared. The last case compares the harness's type list with the isMessage types declared in package message.",
 		Assumptions: commonAssumptions}
 	vrun.Loop(t, meta, 0, guarded(func(c *vrun.Case) vrun.Result {
 		if c.Index == len(cases) {
@@ -368,7 +368,7 @@ func enumCases() []enumCase {
 func TestC11EnumTotality(t *testing.T) {
 	cases := enumCases()
 	meta := vrun.Meta{Property: "C11", Workload: "TestC11EnumTotality", Total: len(cases), Exhaustive: true,
-		Rule: "exhaustive: (a) every constant of every enumeration type declared in package message (listed from the package's declarations: ResultCode, QoS) at every enumeration-typed field path of every message type/variant, inside an otherwise fully populated message, through both codecs: it must encode and decode back to itself; (b) every enumerator name of the generated wire package's value tables (ResultCode incl. the alias NORMAL_CLOSURE, QoS) at every wire enumeration field, presented as protobuf bytes, as JSON with enumerator names and as JSON with numbers: the library must decode it, and re-encoding must give the same wire number; the three decoded messages must be identical. Distinct = (direction, type, field, enumerator); non-trivial = the codecs were actually run on the value.",
+		Rule:        "exhaustive: (a) every constant of every enumeration type declared in package message (listed from the package's declarations: ResultCode, QoS) at every enumeration-typed field path of every message type/variant, inside an otherwise fully populated message, through both codecs: it must encode and decode back to itself; (b) every enumerator name of the generated wire package's value tables (ResultCode incl. the alias NORMAL_CLOSURE, QoS) at every wire enumeration field, presented as protobuf bytes, as JSON with enumerator names and as JSON with numbers: the library must decode it, and re-encoding must give the same wire number; the three decoded messages must be identical. Distinct = (direction, type, field, enumerator); non-trivial = the codecs were actually run on the value.",
 		Assumptions: commonAssumptions}
 	vrun.Loop(t, meta, 0, guarded(func(c *vrun.Case) vrun.Result {
 		ec := cases[c.Index]
@@ -903,7 +903,7 @@ const randBatch = 10
 func TestC11Random(t *testing.T) {
 	env := vrun.LoadEnv()
 	meta := vrun.Meta{Property: "C11", Workload: "TestC11Random", Total: env.Pick(500, 20000),
-		Rule: fmt.Sprintf("each case draws %d messages from the case PRNG: uniformly chosen message type, every struct field filled by reflection with random contents (strings: empty/ASCII/Japanese/emoji/control/JSON-special/escape-looking text and random runes, all valid UTF-8; integers: 0,1,max,max-1,sign bit, powers of two +-1, random; durations at, one ns beside, half-way and one ns before wire resolution steps incl. the largest step; instants 0,+-1ns,min,max,random in five zones; uuids; payloads nil/empty/1..300/~4096/up to 70 kB, and in every 25th case one payload of 64 KiB..1 MiB; collections nil/empty/1..50; random variants and extension presence); the reader hands the bytes out in random piece sizes. 80%% of the cases are in-domain, 10%% 'edge' (some durations/instants outside the wire domain: those fields are not judged, all others are), 10%% 'hostile' (invalid UTF-8, nil interfaces, nil elements, non-constant enum numbers: only 'no panic' and byte counts are judged). Distinct = (class, types, encoded sizes); non-trivial = every message of the batch went through both codecs and had leaves compared (in hostile cases: at least one encode was attempted and returned).", randBatch),
+		Rule:        fmt.Sprintf("each case draws %d messages from the case PRNG: uniformly chosen message type, every struct field filled by reflection with random contents (strings: empty/ASCII/Japanese/emoji/control/JSON-special/escape-looking text and random runes, all valid UTF-8; integers: 0,1,max,max-1,sign bit, powers of two +-1, random; durations at, one ns beside, half-way and one ns before wire resolution steps incl. the largest step; instants 0,+-1ns,min,max,random in five zones; uuids; payloads nil/empty/1..300/~4096/up to 70 kB, and in every 25th case one payload of 64 KiB..1 MiB; collections nil/empty/1..50; random variants and extension presence); the reader hands the bytes out in random piece sizes. 80%% of the cases are in-domain, 10%% 'edge' (some durations/instants outside the wire domain: those fields are not judged, all others are), 10%% 'hostile' (invalid UTF-8, nil interfaces, nil elements, non-constant enum numbers: only 'no panic' and byte counts are judged). Distinct = (class, types, encoded sizes); non-trivial = every message of the batch went through both codecs and had leaves compared (in hostile cases: at least one encode was attempted and returned).", randBatch),
 		Assumptions: commonAssumptions}
 	vrun.Loop(t, meta, 0, guarded(func(c *vrun.Case) vrun.Result {
 		class := classDomain
